@@ -11,6 +11,7 @@ import IxpeVerif.Model.Hist
 import IxpeVerif.Model.Kislat
 import IxpeVerif.Model.Polarization
 import IxpeVerif.Model.Ephemeris
+import IxpeVerif.Model.Additivity
 /-! Dispatcher of the hand-written models for the line-protocol driver.  Integers travel in decimal. -/
 namespace Driver
 
@@ -86,6 +87,22 @@ def kEvents : List Int → List (Kislat.Ev Float)
 def compsOf : List Int → List (Pol.Comp Float)
   | f :: m :: d :: rest => ⟨fbits f, fbits m, fbits d⟩ :: compsOf rest
   | _ => []
+
+def binsOf : List Int → List (Add.Bin Float)
+  | c :: i :: q :: u :: w2 :: mu :: em :: rest => ⟨c.toNat, fbits i, fbits q, fbits u, fbits w2, fbits mu, fbits em⟩ :: binsOf rest
+  | _ => []
+
+def lcsOf : List Int → List (Add.LC Float)
+  | c :: e :: r :: rest => ⟨fbits c, fbits e, fbits r⟩ :: lcsOf rest
+  | _ => []
+
+/-- split a flat list into `k` consecutive chunks of length `n` -/
+def chunks {β : Type} (n : Nat) : Nat → List β → List (List β)
+  | 0, _ => []
+  | k + 1, l => l.take n :: chunks n k (l.drop n)
+
+/-- transpose files × bins -> bins × files -/
+def column {β : Type} (files : List (List β)) (j : Nat) : List β := files.filterMap fun f => f[j]?
 
 def rowsOf : List Int → List EvL.Row
   | t :: s :: f :: g :: rest => ⟨t, s, f != 0, g.toNat⟩ :: rowsOf rest
@@ -200,6 +217,28 @@ def step (ws : List String) : String :=
   | "fold" :: m0 :: n0 :: n1 :: n2 :: st :: p0 :: rest =>
     let (ms, _) := takeN rest
     showFs ((ints ms).map fun t => Eph.fold (fw m0) (fw n0) (fw n1) (fw n2) (fbits t) (fw st) (fw p0))
+  -- cubesum <nbins> <nfiles> <7·nbins·nfiles> (counts I Q U W2 MU EMEAN per bin, file after file)… -> per bin: counts then I Q U W2 MU EMEAN + derived
+  | "cubesum" :: nb :: nf :: rest =>
+    let (v, _) := takeN rest
+    let files := chunks nb.toNat! nf.toNat! (binsOf (ints v))
+    let outs := (List.range nb.toNat!).map fun j =>
+      match Add.sumAll (column files j) with
+      | none => "none"
+      | some b =>
+        let e := Kislat.stokesErrors b.I b.Q b.U b.MU b.W2
+        let p := Kislat.polarization b.I b.Q b.U b.MU b.W2 true
+        toString b.counts ++ " " ++ showFs [b.I, b.Q, b.U, b.W2, b.MU, b.EMEAN, e.QN, e.UN, e.dI, e.dQ, e.dU, p.pd, p.pdErr, p.pa, p.paErr,
+                                              Kislat.mdp99 b.MU b.I b.W2, Kislat.nEff b.I b.W2]
+    " | ".intercalate outs
+  -- lcsum <nbins> <nfiles> <3·nbins·nfiles> (counts exposure error)… -> per bin counts exposure error
+  | "lcsum" :: nb :: nf :: rest =>
+    let (v, _) := takeN rest
+    let files := chunks nb.toNat! nf.toNat! (lcsOf (ints v))
+    let outs := (List.range nb.toNat!).map fun j =>
+      match column files j with
+      | [] => "none"
+      | b :: bs => let r := bs.foldl Add.lcIadd b; showFs [r.counts, r.exposure, r.error]
+    " | ".intercalate outs
   | ["pikey", pi] => showInts [piKey pi.toInt!]
   | ["split", t] => let r := EvL.splitTime t.toInt!; showInts [r.1, r.2]
   | _ => "bad-op"
